@@ -22,12 +22,14 @@ func init() {
 			"reference predicate chain.Conforming confirms every generated scenario before it is judged",
 			"time bounds are at least one hour away from the wall clock, so the clock is not a deciding input",
 		},
-		Shards:      shards(8, 16),
-		Run:         runC05,
-		MinEvals:    floor(3900, 110000),
-		MinDistinct: floor(2500, 60000),
+		Shards:          shards(8, 16),
+		RaceShards:      shards(1, 2),
+		RaceIsViolation: true,
+		Run:             runC05,
+		MinEvals:        floor(3900, 110000),
+		MinDistinct:     floor(2500, 60000),
 		RequiredCells: func(string) []string {
-			cells := []string{"after-fault/hook-nil-nil", "after-fault/hook-duplicate-key", "after-fault/hook-error", "after-fault/hook-panics", "after-fault/loader-fails-midway", "after-fault/policy-violated", "after-a-denied-check-with-incomplete-store", "deep-nesting", "vacuous", "vacuous/no-arguments", "vacuous/unrelated-argument", "far-bounds/inv-exp", "far-bounds/exp>292y", "scale", "scale/long-chain", "scale/deep-command", "scale/many-statements", "scale/principal-thrice", "hook", "meta-plain", "meta-enc", "nonce-long", "cause", "iat=1", "iat=2", "iat=3", "inv-exp", "self-delegation", "subject=invoker", "equal-commands", "top-root", "policy/ipld", "policy/constructors", "no-policy"}
+			cells := []string{"purity/chain-verdicts/history", "purity/chain-verdicts/concurrent", "purity/chain-verdicts/concurrent-focused", "chain-purity/ExecutionAllowed/same-proofs-arguments/model=allow", "chain-purity/ExecutionAllowed/shared-lower-links/model=allow", "after-fault/hook-nil-nil", "after-fault/hook-duplicate-key", "after-fault/hook-error", "after-fault/hook-panics", "after-fault/loader-fails-midway", "after-fault/policy-violated", "after-a-denied-check-with-incomplete-store", "deep-nesting", "vacuous", "vacuous/no-arguments", "vacuous/unrelated-argument", "far-bounds/inv-exp", "far-bounds/exp>292y", "scale", "scale/long-chain", "scale/deep-command", "scale/many-statements", "scale/principal-thrice", "hook", "meta-plain", "meta-enc", "nonce-long", "cause", "iat=1", "iat=2", "iat=3", "inv-exp", "self-delegation", "subject=invoker", "equal-commands", "top-root", "policy/ipld", "policy/constructors", "no-policy"}
 			for _, a := range []string{"unset", "subject", "invoker", "third", "chain"} {
 				cells = append(cells, "audience="+a)
 			}
@@ -49,6 +51,9 @@ func init() {
 }
 
 func runC05(w *mon.W) {
+	if purityGate(w, c05Purity) {
+		return
+	}
 	c05Scale(w)
 	c05Vacuous(w)
 	c05Deep(w)
